@@ -27,8 +27,8 @@ func genMergeDict(r *Rng, k int) string {
 		for j := 0; j < r.Intn(3); j++ {
 			fmt.Fprintf(&sb, "ATTRIBUTE %s-X%d %d string\n", name, r.Intn(4), 1+r.Intn(4))
 		}
-		if r.Intn(3) == 0 {
-			fmt.Fprintf(&sb, "VALUE %s-X1 on %d\n", name, r.Intn(5))
+		for j := 0; j < r.Intn(3); j++ {
+			fmt.Fprintf(&sb, "VALUE %s-X%d w%d%d %d\n", name, r.Intn(4), k, j, r.Intn(5))
 		}
 		fmt.Fprintf(&sb, "END-VENDOR %s\n", name)
 	}
